@@ -10,6 +10,12 @@ uint64_t nondet_model_u64(void); uint8_t nondet_model_u8(void);
 #define RG_BOUND 200
 #endif
 #define RG_MAXCAP 5
+/* producer: the Add() retry loop is cut (after checking its invariant) when iteration RG_PRODUCER_CUT starts.
+ * 2 = induction over one iteration (default); N+1 = additionally run N consecutive failed attempts for real, so that
+ * state the loop keeps in registers (an attempt counter, say) is exercised too */
+#ifndef RG_PRODUCER_CUT
+#define RG_PRODUCER_CUT 2
+#endif
 enum { ROLE_NONE = 0, ROLE_PRODUCER = 1, ROLE_CONSUMER = 2, ROLE_LOCKER = 3 };
 uint32_t rg_role;              /* 0: hooks are plain sequential operations (state set-up / inspection) */
 uint64_t *rg_head, *rg_tail, *rg_slots; uint64_t rg_cap, rg_max;
@@ -67,7 +73,13 @@ int rg_rely_consumer(const struct rg_state *o, const struct rg_state *n, uint64_
 }
 static void havoc_state(struct rg_state *n) { n->head = nondet_model_u64(); n->tail = nondet_model_u64(); for (uint64_t i = 0; i < RG_MAXCAP; i++) n->slots[i] = nondet_model_u64(); }
 uint64_t rg_cons_lo, rg_cons_hi;
+uint32_t rg_at_tail_load;
 static void interfere(void) {
+#ifdef RG_RETRY_INTERFERE_BETWEEN_ATTEMPTS
+  /* bounded-retry variant: from the second attempt on, other threads act only between attempts (before the load of tail_);
+   * the first attempt keeps interference before every atomic operation. A restriction of the environment - stated in the query's shape. */
+  if (rg_role == ROLE_PRODUCER && rg_iter >= 2 && !rg_at_tail_load) return;
+#endif
   if (rg_role == ROLE_PRODUCER) {
     struct rg_state o, n; st_read(&o); havoc_state(&n);
     VERIF_ASSUME(rg_rely_producer(&o, &n, rg_me, rg_pending && !rg_published, rg_pending_slot));
@@ -106,14 +118,16 @@ static int is_slot(uint64_t *p) { uintptr_t a = (uintptr_t)p, b = (uintptr_t)rg_
 /* ---- hooks */
 uint64_t __at_load64(uint64_t *p, int order) {
   if (rg_role) {
+    rg_at_tail_load = (rg_role == ROLE_PRODUCER && p == rg_tail);
     interfere();
+    rg_at_tail_load = 0;
     if (rg_role == ROLE_PRODUCER && p == rg_tail) {
       rg_iter++;
-      if (rg_iter == 2) {
+      if (rg_iter >= 2) {
         /* loop back-edge: the loop invariant of Add() must hold again, then the path is cut (induction) */
         VERIF_CHECK(*rg_owner_ptr == rg_me && !rg_pending && !rg_published, "Add retry: caller still owns the element and nothing of it is in the buffer");
         for (uint64_t i = 0; i < RG_MAXCAP; i++) if (i < rg_cap) VERIF_CHECK(rg_slots[i] != rg_me, "Add retry: no slot holds the element");
-        VERIF_ASSUME(0);
+        if (rg_iter >= RG_PRODUCER_CUT) VERIF_ASSUME(0);
       }
       rg_tail_read = *p;
     }
